@@ -247,6 +247,37 @@ def distinct_cases():
     return cases, decls
 
 
+def discriminant_pattern_cases(quick):
+    """every way of giving each of 3 (and 4) variants either no discriminant or one of {0, 1, 2, 5} (hand-written values
+    distinct): whatever values the automatic variants get, every variant must stay distinguishable - an exhaustive switch
+    runs exactly the arm of the value's variant, and #is_variant is true for exactly that variant"""
+    cases = []
+    k = 0
+    names = "ABCD"
+    for n in (3, 4):
+        for pat in itertools.product((None, 0, 1, 2, 5), repeat=n):
+            explicit = [d for d in pat if d is not None]
+            if len(explicit) != len(set(explicit)) or not explicit:
+                continue
+            if quick and n == 4 and sum(1 for d in pat if d is None) not in (1, 2):
+                continue
+            k += 1
+            en = f"DP{k}"
+            variants = ", ".join(f"{names[i]}{': u8' if i == 0 else ''}" + (f" | {pat[i]}" if pat[i] is not None else "") for i in range(n))
+            decl = f"{en} :: enum {{ {variants} }};"
+            arms = ", ".join(f".{names[i]} => {{ pr({i}); }}" for i in range(n))
+            checks = " ".join(f"pb(#is_variant(v, {en}.{names[i]}));" for i in range(n))
+            fn = f"dp{k} :: (v: {en}) {{ switch q in v {{ {arms} }} {checks} }}"
+            body, out = [], []
+            for i in range(n):
+                lit = f"{en}.{names[i]}.(7)" if i == 0 else f"{en}.{names[i]}"
+                body.append(f"dp{k}({lit});")
+                out += [i] + [1 if j == i else 0 for j in range(n)]
+            pat_s = ",".join("_" if d is None else str(d) for d in pat)
+            cases.append(Case(f"discriminants/{pat_s}", "\n".join(body), fmt_leaves(out), decls=decl + "\n" + fn))
+    return cases
+
+
 def explains(model, m):
     if model == "distinct-sum-type-switch":
         return m.case.key.startswith("distinct ") and m.kind == "compiler-panic"
@@ -276,7 +307,10 @@ def run(tier, seed):
     mism += [m for m in m2 if m.kind != "rejected"]
     r3 = core.Runner("c11d", batch_size=10, prelude=prelude)
     mism += r3.run(dcases)
-    cases = cases + dcases
+    pcases = discriminant_pattern_cases(quick)
+    r4 = core.Runner("c11p", batch_size=40, prelude=BASE + "pb :: (b: bool) { if b { pr(1); } else { pr(0); } }\n")
+    mism += r4.run(pcases)
+    cases = cases + dcases + pcases
     n_acc = sum(1 for c in cases if c.accept)
     outcomes = {c.expected for c in cases if c.accept}
     if n_acc < 50 or len(cases) - n_acc < 50:
@@ -287,7 +321,7 @@ def run(tier, seed):
         "traces_validated_against_impl": len(cases),
         "exhaustive": True,
         "rule": "a case = (sum type, arm list); every case is compiled by the real CLI; accepted ones are executed on every variant x two payloads",
-        "bounds_completed": {"sum_types": len(types), "distinct_wrappers": ["distinct enum", "distinct ?i32", "distinct Err!i32"], "max_variants": 3 if quick else 4,
+        "bounds_completed": {"sum_types": len(types), "discriminant_patterns": "3 and 4 variants, each automatic or hand-written from {0, 1, 2, 5}", "distinct_wrappers": ["distinct enum", "distinct ?i32", "distinct Err!i32"], "max_variants": 3 if quick else 4,
                              "arm_lists": "all sequences over {qualified, shorthand, `_`, foreign variant, unknown shorthand, non-type} of length <= n+1 "
                                           "(quick: <= n for 3-variant enums), at most one non-own arm per list",
                              "expected_accept": n_acc, "expected_reject": len(cases) - n_acc, "not_judged_for_acceptance": len(unjudged)},
